@@ -257,8 +257,6 @@ def checked_call(nc: NativeContracts, key, bound_method_or_func, self_obj, args:
     for p, v in zip(pnames, vals):
         bound[p] = v
     bound.update(kwargs)
-    for p, d in getattr(bound_method_or_func, "__kwdefaults__", None) or {}:
-        bound.setdefault(p, d)
     import inspect
 
     sig = inspect.signature(bound_method_or_func)
